@@ -10,7 +10,7 @@ func VH_C20_predecode() {
 	limit := vI64("limit")
 	vAssume(vAnd(limit >= 0, limit <= 1<<27))
 	sp.MaximumDecompressedBodySize = limit
-	s := &vhScenario{rootSig: vChoice("root.sig", 3), issuerOptional: true}
+	s := &vhScenario{rootSig: vChoice("root.sig", 3), issuerOptional: true, nonASCIIIssuer: vFlag("resp.Issuer.non-ascii")}
 	s.root = vhResponseRoot(s, "samlp:Response")
 	if vFlag("has-assertion") {
 		a := vhAssertionEl("c0", vChoice("c0.sig", 3))
@@ -45,6 +45,8 @@ func VH_C20_predecode() {
 func VH_C20_predecode_logout() {
 	sp := vhOrchSP(vFlag("skipSignatureValidation"))
 	sp.ServiceProviderSLOURL = vString("slo")
+	vhNonASCIIIssuer = vFlag("root.Issuer.non-ascii")
+	defer func() { vhNonASCIIIssuer = false }()
 	l := vhLogoutRoot("samlp:LogoutResponse", vChoice("root.sig", 3), "root")
 	enc := vEncodeDoc("wire", l.root, vChoice("wire.mode", 4))
 	resp, err := sp.ValidateEncodedLogoutResponsePOST(enc)
